@@ -23,6 +23,15 @@ func Root() string {
 	return "/verif"
 }
 
+// OutRoot is where evidence, replays and built binaries go: VERIF_OUT when a check is run
+// against a scratch tree (tools/seedpar.sh), else the /verif checkout itself.
+func OutRoot() string {
+	if r := os.Getenv("VERIF_OUT"); r != "" {
+		return r
+	}
+	return Root()
+}
+
 type Evidence struct {
 	PropertyID  string         `json:"property_id"`
 	Tier        string         `json:"tier"`
@@ -43,7 +52,7 @@ func Seed() int {
 func (e *Evidence) Write(start time.Time) error {
 	e.WallS = time.Since(start).Seconds()
 	e.Seed = Seed()
-	dir := filepath.Join(Root(), "evidence")
+	dir := filepath.Join(OutRoot(), "evidence")
 	os.MkdirAll(dir, 0o755)
 	b, err := json.MarshalIndent(e, "", " ")
 	if err != nil {
@@ -173,7 +182,7 @@ func (r *Reporter) Violation(caseID, what string, files map[string]string) bool 
 		return true
 	}
 	r.nreplay++
-	dir := filepath.Join(Root(), "replays", r.Prop, fmt.Sprintf("%03d", r.nreplay))
+	dir := filepath.Join(OutRoot(), "replays", r.Prop, fmt.Sprintf("%03d", r.nreplay))
 	os.RemoveAll(dir)
 	os.MkdirAll(dir, 0o755)
 	meta := map[string]string{"property": r.Prop, "case": caseID, "what": what}
